@@ -302,6 +302,158 @@ class Real:
             sc.cancel()
 
 
+class Boom(Exception):
+    """the exception with which a harness block ends (how = "exc")"""
+
+
+class TdRaise(Exception):
+    """raised by a teardown callback of kind "raises" """
+
+
+def leaves(e):
+    if isinstance(e, BaseExceptionGroup):
+        for x in e.exceptions:
+            yield from leaves(x)
+    else:
+        yield e
+
+
+class RealLife(Real):
+    """Life-cycle executor: every context is entered by a worker task with a real `async with`, so that blocks can end by
+    return, exception or cancellation, and the context can be observed while its teardown is in progress (a probe callback
+    registered just before the block ends parks the teardown until EndClose)."""
+
+    def __init__(self, *a):
+        super().__init__(*a)
+        self.workers = {}
+
+    async def step(self, obs):
+        import anyio
+        from asphalt.core import Context
+        a, c = obs["a"], obs["c"]
+        self.step_no += 1
+        if a == "Create":
+            p = obs["p"]
+            ctx = Context(self.ctx[p]) if p else Context()
+            self.ctx[c] = ctx
+            await self.listen(c, ctx)
+            return "ok", None
+        ctx = self.ctx[c]
+        if a == "Enter":
+            if obs["r"] != "ok":
+                # expected to be refused: must raise without any effect
+                try:
+                    await ctx.__aenter__()
+                except RuntimeError:
+                    return "RuntimeError", None
+                return "ok", None
+            w = {"cmd": anyio.Event(), "how": None, "release": anyio.Event(), "entered": anyio.Event(), "done": anyio.Event(), "exc": None,
+                 "scope": anyio.CancelScope(), "enter_error": None}
+            self.workers[c] = w
+
+            async def worker():
+                try:
+                    with w["scope"]:
+                        try:
+                            async with ctx:
+                                w["entered"].set()
+                                await w["cmd"].wait()
+                                if w["how"] == "exc":
+                                    raise Boom(c)
+                                if w["how"] == "cancel":
+                                    await anyio.sleep_forever()
+                        except RuntimeError as e:
+                            if not w["entered"].is_set():
+                                w["enter_error"] = e
+                            else:
+                                w["exc"] = e
+                        except BaseException as e:  # noqa: BLE001
+                            w["exc"] = e
+                            if isinstance(e, anyio.get_cancelled_exc_class()):
+                                raise
+                finally:
+                    w["entered"].set()
+                    w["done"].set()
+            self.tg.start_soon(worker)
+            await w["entered"].wait()
+            if w["enter_error"] is not None:
+                return "RuntimeError", None
+            return "ok", None
+        if a == "BeginClose":
+            w = self.workers[c]
+
+            async def probe():
+                with anyio.CancelScope(shield=True):
+                    await w["release"].wait()
+            ctx.add_teardown_callback(probe)
+            w["how"] = obs["how"]
+            w["cmd"].set()
+            if obs["how"] == "cancel":
+                await vclock.quiescent()
+                w["scope"].cancel()
+            return "ok", None
+        if a == "EndClose":
+            w = self.workers[c]
+            w["release"].set()
+            await w["done"].wait()
+            e = w["exc"]
+            if e is None:
+                return ("cancel" if w["scope"].cancelled_caught else "return"), None
+            lv = list(leaves(e))
+            if any(isinstance(x, TdRaise) for x in lv):
+                return "TeardownGroup", None
+            if any(isinstance(x, RuntimeError) and "stack corruption" in str(x).lower() for x in lv):
+                return "StackCorruption", None
+            if e is not None and isinstance(e, Boom):
+                return "exc", None
+            if all(isinstance(x, anyio.get_cancelled_exc_class()) for x in lv):
+                return "cancel", None
+            if any(isinstance(x, Boom) for x in lv):
+                return "exc-wrapped", None
+            return "other:" + type(e).__name__, None
+        if a == "AddTd":
+            kind = obs["kind"]
+            try:
+                if kind == "bad":
+                    ctx.add_teardown_callback("notcallable")
+                    return "ok", None
+                ident = (kind, c, obs["v"][2]) if "v" in obs else ("failed-add", c)
+                pe = (self.variant + self.step_no) % 2 == 1
+
+                def cb(*args, ident=ident):
+                    self.tdlog.append(ident if len(args) == (1 if pe else 0) else ("wrong-arity", c))
+                    if ident[0] == "raises":
+                        raise TdRaise(ident)
+                if self.variant % 3 == 0:
+                    async def acb(*args):
+                        cb(*args)              # log (and raise) before the checkpoint: the block may have been cancelled
+                        await anyio.sleep(0)
+                    ctx.add_teardown_callback(acb, pe)
+                else:
+                    ctx.add_teardown_callback(cb, pass_exception=pe)
+                return "ok", None
+            except RuntimeError:
+                return "RuntimeError", None
+            except (TypeError, ValueError):
+                return "Invalid", None
+        return await super().step(obs)
+
+    async def finish(self):
+        import anyio
+        for c in sorted(self.workers, reverse=True):
+            w = self.workers[c]
+            if not w["done"].is_set():
+                w["how"] = w["how"] or "return"
+                w["cmd"].set()
+                w["release"].set()
+                w["scope"].cancel()
+        for c in sorted(self.workers, reverse=True):
+            with anyio.move_on_after(5):
+                await self.workers[c]["done"].wait()
+        for sc in self.listeners.values():
+            sc.cancel()
+
+
 def spec_projection(enc):
     cstate, _parent, resids = enc[0], enc[1], enc[2]
     out = []
@@ -394,6 +546,10 @@ def loop_obs(row):
         if row[7] != 0:
             o["v"] = row[7]
         return o
+    if a == "AddTd":
+        return {"a": a, "c": row[1], "kind": row[2], "r": row[3], "ev": []}
+    if a == "Enter":
+        return {"a": a, "c": row[1], "r": row[2], "ev": []}
     raise core.MachineryError(f"unknown loop row {row}")
 
 
@@ -406,6 +562,8 @@ async def check_step(real: Real, obs, to_enc, before_proj, failed_expected):
     got_r, got_v = await real.step(obs)
     await vclock.quiescent()
     exp_r = obs["r"]
+    if exp_r == "StackCorruptionOrOwn" and got_r in ("StackCorruption", obs.get("how")):
+        exp_r = got_r
     if got_r != exp_r:
         return "result", exp_r, got_r, attribute(obs, exp_r, got_r, "result", None)
     if "v" in obs and obs["a"] == "Get":
@@ -442,7 +600,7 @@ async def check_step(real: Real, obs, to_enc, before_proj, failed_expected):
             return "events", exp_ev, got_ev, attribute(obs, exp_r, got_r, "events", None)
     # teardown callbacks run by this step
     ran = real.tdlog[td_before:]
-    exp_run = [("res", canon(x[1])) for x in obs.get("tdrun", [])]
+    exp_run = [canon(x) for x in obs.get("tdrun", [])]
     if [tuple(x) for x in ran] != exp_run:
         return "tdrun", exp_run, ran, attribute(obs, exp_r, got_r, "tdrun", (exp_run, ran))
     # factory calls: exactly one call for a generation, none otherwise
@@ -459,7 +617,9 @@ _G = None      # the graph, shared with forked workers instead of being pickled
 
 
 def _walk_part(args):
-    part, nparts, nctx, names, seed = args
+    part, nparts, nctx, names, seed = args[:5]
+    life = len(args) > 5 and args[5]
+    Exec = RealLife if life else Real
     g = _G
     stats = collections.Counter()
     mism = []
@@ -491,7 +651,7 @@ def _walk_part(args):
         tour = 0
         async def one_tour(tg, target, tour):
             """a tour runs in a task of its own, so that it starts without a current context"""
-            real = Real(nctx, names, tour + seed, tg)
+            real = Exec(nctx, names, tour + seed, tg)
             trail = []
             bad = None
             cur = g.init
@@ -619,31 +779,36 @@ def ctx_check(prop: str, tier: str, seed: int) -> core.Report:
     global _G
     rep = core.Report(prop, tier, seed)
     # 1. the design: invariants and action properties of Ctx on the complete step relation
-    mcb = [(2, 3, ["default"])] if tier == "quick" else [(3, 2, ["default"]), (2, 3, ["default", "alt"])]
-    for (mc_, mr, nm) in mcb:
-        res = tlc.run("MC_Ctx", cfg_text=_cfg_text(mc_, mr, nm, mc=True), workers=core.NCPU, big=True, heap="16g", timeout=3000, check=False)
+    if prop == "C13":
+        mcb = [(2, 1, ["default"], True)] if tier == "quick" else [(2, 2, ["default"], True)]
+        graphs = [(1, 2, ["default"], True), (2, 1, ["default"], True)] if tier == "quick" else [(1, 3, ["default"], True), (2, 2, ["default"], True)]
+    else:
+        mcb = [(2, 3, ["default"], False)] if tier == "quick" else [(3, 2, ["default"], False), (2, 3, ["default", "alt"], False)]
+        graphs = [(2, 2, ["default"], False), (3, 1, ["default"], False), (1, 2, ["default"], True)] if tier == "quick" else \
+                 [(2, 3, ["default"], False), (3, 2, ["default"], False), (2, 2, ["default", "alt"], False), (2, 1, ["default"], True)]
+    for (mc_, mr, nm, lf) in mcb:
+        res = tlc.run("MC_Ctx", cfg_text=_cfg_text(mc_, mr, nm, life=lf, mc=True), workers=core.NCPU, big=True, heap="16g", timeout=3000, check=False)
         if res.error or res.invariant_violated or res.property_violated:
             raise core.MachineryError(f"Ctx.tla violates its own properties ({mc_},{mr}): {res.invariant_violated or res.error or 'action property'}\n{res.out[-1500:]}")
-        rep.add_tlc(res, f"MC_Ctx MaxCtx={mc_} MaxRegs={mr} Names={nm}: ScopedDown, GenNotShared, GenIsOwn, Stable, OnlyActedOn, FailedChangesNothing, Forward, EventsRight")
+        rep.add_tlc(res, f"MC_Ctx MaxCtx={mc_} MaxRegs={mr} Names={nm} Life={lf}: ScopedDown, GenNotShared, GenIsOwn, Stable, OnlyActedOn, FailedChangesNothing, Forward, EventsRight")
     # 2. spec -> code: every state and transition of the bounded graphs replayed against real contexts
-    graphs = [(2, 2, ["default"]), (3, 1, ["default"])] if tier == "quick" else [(2, 3, ["default"]), (3, 2, ["default"]), (2, 2, ["default", "alt"])]
-    dumps = core.pmap(_dump_job, [(_cfg_text(a, b, nm),) for a, b, nm in graphs], chunks=1, jobs=len(graphs))
+    dumps = core.pmap(_dump_job, [(_cfg_text(a, b, nm, life=lf),) for a, b, nm, lf in graphs], chunks=1, jobs=len(graphs))
     total = collections.Counter()
     all_m = []
-    for (a, b, nm), (g, res) in zip(graphs, dumps):
-        rep.add_tlc(res, f"MC_Ctx dump MaxCtx={a} MaxRegs={b} Names={nm} (state-changing transitions; outcomes that change nothing are listed per state)")
+    for (a, b, nm, lf), (g, res) in zip(graphs, dumps):
+        rep.add_tlc(res, f"MC_Ctx dump MaxCtx={a} MaxRegs={b} Names={nm} Life={lf} (state-changing transitions; outcomes that change nothing are listed per state)")
         _G = g
         t0 = time.time()
         jobs = core.NCPU
-        parts = core.pmap(_walk_part, [(i, jobs, a, nm, seed) for i in range(jobs)], chunks=1, jobs=jobs)
+        parts = core.pmap(_walk_part, [(i, jobs, a, nm, seed, lf) for i in range(jobs)], chunks=1, jobs=jobs)
         _G = None
         st = collections.Counter()
         for s_, mm in parts:
             st.update(s_)
-            all_m.extend((f"{a}x{b}", a, nm, m) for m in mm)
+            all_m.extend((f"{a}x{b}{'L' if lf else ''}", a, nm, lf, m) for m in mm)
         st["states"] = len(g.states)
         st["walk_wall_s"] = round(time.time() - t0, 1)
-        rep.extra.setdefault("replay", []).append({"graph": f"MaxCtx={a} MaxRegs={b} Names={nm}", **st})
+        rep.extra.setdefault("replay", []).append({"graph": f"MaxCtx={a} MaxRegs={b} Names={nm} Life={lf}", **st})
         total.update({k: v for k, v in st.items() if k != "walk_wall_s"})
         if not rep.samples:
             k = g.order[min(len(g.order) - 1, 57)]
@@ -659,16 +824,16 @@ def ctx_check(prop: str, tier: str, seed: int) -> core.Report:
                 "distinct_nontrivial = number of distinct (state, operation) pairs examined, prefix steps not counted")
     rep.extra["unexamined_ops"] = total.get("unexamined_ops", 0)
     drift = 0
-    for gname, nctx, nm, (props, what, obs, exp, got, path) in all_m:
+    for gname, nctx, nm, lf, (props, what, obs, exp, got, path) in all_m:
         if prop in props:
             pre = "x"
             sig = f"{prop}:{what}:{obs['a']}:{obs.get('r')}"
             rep.violations.append(core.Violation(prop, f"{what} after {obs['a']} (expected {exp}, observed {got})", sig,
-                                                 {"graph": gname, "nctx": nctx, "names": nm, "path": path, "seed": seed}, {"expected": exp, "observed": got, "attributed_to": props}))
+                                                 {"graph": gname, "nctx": nctx, "names": nm, "life": lf, "path": path, "seed": seed}, {"expected": exp, "observed": got, "attributed_to": props}))
         else:
             drift += 1
     rep.extra["differences_attributed_to_other_properties"] = drift
-    rep.assumptions = ["contexts are entered and left with __aenter__/__aexit__ from one task per tour (root first, closed last)",
+    rep.assumptions = ["Life=FALSE graphs: contexts entered and left with __aenter__/__aexit__ from one task per tour; Life=TRUE graphs: one worker task per context with a real `async with`, blocks ending by return / exception / cancellation, teardown parked by a probe callback",
                        "identity of resources is Python object identity of harness objects; factories are observed through lookups only",
                        "exception classes for invalid names/values/types are not fixed by the statements: any ValueError/TypeError is accepted"]
     return rep
@@ -685,7 +850,7 @@ def ctx_replay_case(prop: str, scenario: dict):
 
             async def runner():
                 try:
-                    real = Real(scenario["nctx"], scenario["names"], scenario.get("seed", 1), tg)
+                    real = (RealLife if scenario.get("life") else Real)(scenario["nctx"], scenario["names"], scenario.get("seed", 1), tg)
                     # without the graph only results can be compared: the recorded path carries the expected results
                     for obs in scenario["path"]:
                         got_r, got_v = await real.step(obs)
